@@ -48,7 +48,10 @@ PathOpsFrom(p, tw) ==
   withPubs \o << [op |-> "raw", a |-> leaf], [op |-> "topub", a |-> n + 1], [op |-> "pub", a |-> leaf], [op |-> "rawpub", a |-> n + 3],
                  [op |-> "sign", a |-> n + 1, m |-> msg], [op |-> "verify", a |-> n + 2, m |-> msg, s |-> n + 5], [op |-> "verify", a |-> n + 4, m |-> msg, s |-> n + 5],
                  [op |-> "verify", a |-> n + 2, m |-> <<1, 2>>, s |-> n + 5], [op |-> "hash", a |-> n + 2],
-                 [op |-> "sign", a |-> n + 1, m |-> h], [op |-> "witness", a |-> n + 1, h |-> h], [op |-> "icarus", a |-> leaf, h |-> h], [op |-> "daedalus", a |-> leaf, h |-> h] >>
+                 [op |-> "sign", a |-> n + 1, m |-> h], [op |-> "witness", a |-> n + 1, h |-> h], [op |-> "icarus", a |-> leaf, h |-> h], [op |-> "daedalus", a |-> leaf, h |-> h],
+                 \* legacy keys that are not BIP32-Ed25519 keys: low bits of the scalar set, bit 254 cleared, bit 255 set, another extension byte
+                 [op |-> "daedalus", a |-> leaf, h |-> h, mutate |-> [byte |-> 0, xor |-> 1]], [op |-> "daedalus", a |-> leaf, h |-> h, mutate |-> [byte |-> 31, xor |-> 64]],
+                 [op |-> "daedalus", a |-> leaf, h |-> h, mutate |-> [byte |-> 31, xor |-> 128]], [op |-> "daedalus", a |-> leaf, h |-> h, mutate |-> [byte |-> 40, xor |-> 1]] >>
 \* sign / verify matrix: keys x messages, every signature against every key and message
 MatrixOps ==
   LET keys == << <<[op |-> "normal", i |-> 1]>>, <<[op |-> "normal", i |-> 2]>>, <<[op |-> "root", i |-> 1], [op |-> "raw", a |-> 0]>>,
@@ -87,6 +90,13 @@ EmipOps(pl, dl) ==
      [op |-> "decrypt", a |-> 1, pw |-> pw, append0 |-> 1],
      [op |-> "decrypt", a |-> 1, pw |-> other],
      [op |-> "decrypt", a |-> 1, pw |-> SubSeq(pw, 1, pl - 1) \o <<0>>],
+     \* related passwords, each right after a use of the right one: proper prefixes (also the empty one), an extension
+     [op |-> "decrypt", a |-> 1, pw |-> SubSeq(pw, 1, pl - 1)],
+     [op |-> "decrypt", a |-> 1, pw |-> pw],
+     [op |-> "decrypt", a |-> 1, pw |-> pw \o <<77>>],
+     [op |-> "decrypt", a |-> 1, pw |-> pw],
+     [op |-> "decrypt", a |-> 1, pw |-> <<>>],
+     [op |-> "decrypt", a |-> 1, pw |-> SubSeq(pw, 1, (pl + 1) \div 2)],
      [op |-> "decrypt", a |-> 1, pw |-> pw, cut |-> 1],
      [op |-> "decrypt", a |-> 1, pw |-> pw, cut |-> dl] >>
   \o [q \in 1..Cardinality({0, 31, 32, 43, 44, 59, 60, total - 1} \cap 0..(total - 1)) |->
